@@ -202,7 +202,14 @@ Inductive rpc :=
 | RClassify (k : rerr) (* has error k: classifyReadLoopError (reads closed / established) *)
 | RClose (p : cpc)     (* inside close(false) *)
 | RExit                (* deferred exit: close(decrypted) if established; cancel() *)
-| RDone.
+| RDone
+| RHand (failed : bool).
+    (* readAndBuffer handed a handshake/ACK datagram to the state machine ("c.handshakeRecv <- s") and
+       is parked on "<-s.Done".  [failed]: the state machine fails while it handles it (the ACK of a
+       peer's post-handshake KeyUpdate/NewSessionTicket cannot be written, the message is refused,
+       Close cancels ctxHs inside that write).  The lease is released on every path - fsm13.finish:
+       "s.received.retain(received); defer s.received.release()" - so the step below is always enabled;
+       a failing state machine reports into firstErr and ends (readAndBuffer then goes by fsm.Done()). *)
 
 Definition reader_step (r : rpc) (c : conn) : rpc * conn :=
   match r with
@@ -225,6 +232,7 @@ Definition reader_step (r : rpc) (c : conn) : rpc * conn :=
   | RClose p => let '(p', c') := close_step false p c in (RClose p', c')
   | RExit => (RDone, reader_exit c)
   | RDone => (RDone, c)
+  | RHand f => (RRead, if f then put_first_err ROther c else c)
   end.
 
 (* ------------------------------------------------------------------ HandshakeContext caller *)
@@ -292,7 +300,9 @@ Inductive env :=
 | EFsmErr         (* the FSM goroutine fails and reports into firstErr *)
 | ERdDeadline | EWrDeadline  (* SetReadDeadline/SetWriteDeadline in the past *)
 | EHsCtx          (* the context passed to HandshakeContext is done *)
-| EWrBlock.       (* from now on the socket does not take writes *)
+| EWrBlock        (* from now on the socket does not take writes *)
+| ERecvHs (failed : bool).
+    (* a handshake / ACK datagram is read and handed to the state machine, which handles it or fails *)
 
 Inductive op :=
 | SpawnClose             (* one more goroutine calls Close() *)
@@ -343,6 +353,11 @@ Definition env_step (e : env) (g : cfg) : cfg :=
   | EWrDeadline => mkCfg (set_wr_dl c) (hs g) (rd g) (us g)
   | EHsCtx => mkCfg (set_hctx c) (hs g) (rd g) (us g)
   | EWrBlock => mkCfg (set_wr_blk c) (hs g) (rd g) (us g)
+  | ERecvHs f =>
+      match rd g with
+      | RRead => if sock_closed c then g else mkCfg c (hs g) (RHand f) (us g)
+      | _ => g
+      end
   end.
 
 Definition exec (o : op) (g : cfg) : cfg :=
@@ -454,7 +469,7 @@ Definition rank_u (u : upc) : nat :=
 Definition rank_r (r : rpc) : nat :=
   match r with
   | RNone => 20 | RReply => 19 | RClassify ROther => 18 | RRead => 17 | RClassify _ => 16
-  | RClose p => 8 + rank_c p | RExit => 2 | RDone => 0
+  | RClose p => 8 + rank_c p | RExit => 2 | RDone => 0 | RHand _ => 18
   end.
 Definition rank_h (h : hpc) : nat :=
   match h with HIdle => 5 | HBegun => 4 | HNeg => 3 | HSelect => 2 | HWait _ => 1 | HRet _ => 0 end.
